@@ -82,7 +82,7 @@ PROPS = {
     ),
     "C08": dict(
         lean_modules=["Swim.Lemmas.Merge", "Swim.Props.C08"],
-        tests="^TestC08$",
+        tests="^TestC08(Sim)?$",
         shards_quick=8,
         rule='the C01 table (address same/other/disallowed/v4-mapped x prior state x aged x reclaim) judged by the hijack/reuse/departure predicate, plus random histories with Leave; non-trivial/distinct as C01',
         trusted_base=COMMON_TB + ["addresses/metadata abstracted to codes (distinct byte strings = distinct codes, checked by the harness pool)",
